@@ -79,13 +79,39 @@ def check(ctx, run):
         run.ob("R1", "size %d: cached=%s class=%s" % (size, bool(wantc), wanti), gi.site, ok, witness={"isCached": c, "index": idx},
                what="" if ok else "a %d-byte request is served from class %s (size %s)" % (size, idx, sizes[idx] if isinstance(idx, int) and idx < len(sizes) else "?"))
     gc = prog.fn(CA + "::getCacheNodeFromSize")
-    ini = {k: render(gc, v) for k, v in local_inits(gc).items()}
-    rets = [render(gc, gc.node(n.get("value"))) for n in gc.walk() if n["k"] == "ReturnStmt"]
-    ok = ini.get("index") == "getIndexForCache(%s)" % gc.params[0]["name"] and rets == ["&cache_[index]"]
-    run.ob("R1", "getCacheNodeFromSize = &cache_[getIndexForCache(size)]", gc.site, ok, witness={"init": ini, "returns": rets})
     hf = prog.fn(CA + "::hasFreeBlocksOfSize")
-    rets = [render(hf, hf.node(n.get("value"))) for n in hf.walk() if n["k"] == "ReturnStmt"]
-    run.ob("R1", "hasFreeBlocksOfSize looks at the free list of the request's own class", hf.site, rets in (["(getCacheNodeFromSize(%s)->freeMemoryHead_ != NULL)" % hf.params[0]["name"]],), witness=rets)
+    run.analysed(gc)
+    run.analysed(hf)
+    CINL = {CA + "::getIndexForCache", CA + "::getCacheNodeFromSize", CA + "::isCached"}
+    penv = {"cache_": ("ptr", "CACHE", 0)}
+    penv.update({"CACHE[%d].size_" % i: s_ for i, s_ in enumerate(sizes)})
+    badn, badf = None, None
+    probe = sorted({0, 1} | {s_ + d for s_ in sizes for d in (-1, 0, 1) if 0 <= s_ + d <= sizes[-1]})
+    try:
+        for size in probe:
+            wanti = next(i for i, s_ in enumerate(sizes) if size <= s_)
+            ev = Evaluator(prog, gc, env=dict(penv, **{gc.params[0]["name"]: size}))
+            ev.heap_mode = True
+            ev.inline = CINL
+            ev.run_blocks(gc.entry, max_steps=600)
+            r = getattr(ev, "ret", None)
+            if r != ("ptr", "CACHE", wanti) and badn is None:
+                badn = "size %d: node %s, expected class %d" % (size, r, wanti)
+            for own_free in (0, 1):
+                env = dict(penv, **{hf.params[0]["name"]: size})
+                for i in range(ncls):
+                    env["CACHE[%d].freeMemoryHead_" % i] = (4242 if own_free else 0) if i == wanti else (0 if own_free else 4242)
+                ev = Evaluator(prog, hf, env=env)
+                ev.heap_mode = True
+                ev.inline = CINL
+                ev.run_blocks(hf.entry, max_steps=600)
+                r = getattr(ev, "ret", None)
+                if r != own_free and badf is None:
+                    badf = "size %d with the own class %s and every other class %s: answers %s" % (size, "non-empty" if own_free else "empty", "empty" if own_free else "non-empty", r)
+    except Unknown as u:
+        run.broke("C18.R1: getCacheNodeFromSize / hasFreeBlocksOfSize cannot be folded: %s" % u)
+    run.ob("R1", "getCacheNodeFromSize folded at every class boundary: the node of the smallest class >= size", gc.site, badn is None, witness=badn or "%d sizes" % len(probe), what=badn or "")
+    run.ob("R1", "hasFreeBlocksOfSize folded at every class boundary: looks at the free list of the request's own class only", hf.site, badf is None, witness=badf or "%d sizes x 2" % len(probe), what=badf or "")
     an = prog.fn(CA + "::allocateNewCacheBlockFrom")
     run.analysed(an)
     cs = [render(an, c) for c in an.calls() if "createSimpleStringMemoryBlock" in render(an, c)]
